@@ -33,6 +33,47 @@ claim("C19", "DESIGN.md §5 C19",
       "Model compared with the code on every run (arrays, draw counts); seeded scipy leaves compared with the same numpy operations.",
       "Zero denominators excluded explicitly (numpy inf/nan vs totalised Rat division); float-inexact quotients are skipped and counted.")
 
+claim("C02", "DESIGN.md §5 C02",
+      "Lean 4 theorems (penalty-QUBO energy identity over any field and for the model's MPData; well-shapedness of the three formulations' data; totality of the sequence data for L>=3) + differential correspondence and exhaustive 2^n identity check",
+      "Proved for every program data (A,b,R,c,Q_obj), every rho of either sign, both modes and every binary x: x'Qx+k = objective(x) + rho(|Ax-b|^2 + x'Rx) (generic over any field; instantiated for the model). "
+      "Proved for the three formulation builders: dimensions are consistent (A is len(b) x n, c has length n, all indices in range), so the QUBO exists for every instance; sequence-based consistency assertions cannot fail when L>=3. "
+      "The builders (variable lists, A triples, b, R, c, Q_obj, sufficient penalty, Q, k) are compared with the code on every run, before and after the heuristic; the identity is re-checked on the real code's outputs over all 2^n vectors.",
+      "scipy shape inference / COO dot quirks belong to the pinned code (repaired); the model keeps inferShape only as a regression lemma.")
+claim("C03", "DESIGN.md §5 C03",
+      "Lean 4 theorems (penalty non-negative, zero iff all linear and quadratic constraints hold; feasibility QUBO with default rho=1 equals the penalty) + correspondence and exhaustive zero-set check",
+      "Proved for every program data and every binary x: the feasibility-mode QUBO with the default (and any positive) penalty is >= 0 and = 0 exactly when x satisfies all linear rows and the quadratic constraint; "
+      "hence minimum 0 iff the constrained program is feasible and every zero-energy assignment is a solution. R is entrywise non-negative by construction (counts). "
+      "Re-checked on the real code over all 2^n vectors of generated instances of the three formulations.",
+      "Exact arithmetic; instance generator bounds what the correspondence sees.")
+claim("C04", "DESIGN.md §5 C04",
+      "Lean 4 theorems (exact-penalty proposition; integrality of the three formulations' data; sufficient-penalty bound >= sum of |objective coefficients| for arc, path and (repaired) sequence formulation) + correspondence and exhaustive argmin comparison",
+      "Proved: with integral (A,b), a bound suff >= sum|coeff| and a feasible program, the minimisers of the default-penalty QUBO over all binary vectors are exactly the constrained optima and the minimum equals the optimal cost; "
+      "the three formulations satisfy the hypotheses for EVERY instance state (so also after the heuristic, any high cost, negative costs). The pinned sequence bound is refuted in Lean on a witness. "
+      "Argmin sets compared by brute force on the real code for n <= 16.",
+      "Feasibility of the program is a hypothesis of the property; infeasible instances are skipped and counted.")
+claim("C06", "DESIGN.md §5 C06",
+      "Lean 4 theorems (check_route accepts iff the VRPTW route definition holds; cost; name resolution; pool invariant over add_route/add_node histories; exact-cover data) + differential correspondence over route histories and independent route-definition oracle",
+      "Route admission, stored cost, store-once and the exact-cover constraint data are modelled operationally (early exits, on-the-fly name resolution) and compared with the code on every candidate route of generated histories "
+      "(names/indices/mixed, valid and mutated-invalid routes, later nodes and arcs). Theorems: see evidence (merged as they are proved).",
+      "Capacity/initial load set; integer stops are valid positions; depot is node 0.")
+claim("C11", "DESIGN.md §5 C11",
+      "Lean 4 theorems (window endpoints <-> inventory inequalities for both port types; validity iff size <= cap; add_nodes emits exactly the visits ending within the horizon; inventory safety for every choice of service times via two pigeonhole lemmas) + correspondence and inventory simulation",
+      "Proved for all rational parameters: each window opens at the first instant a full cargo can be loaded/discharged and closes at the last safe instant; the loop of add_nodes terminates and emits exactly visits k=0..K-1 with demand -/+size; "
+      "servicing every node once anywhere inside its window keeps the inventory in [0,cap] at every instant of the horizon (both just-before and just-after counts, any order, overlapping windows). "
+      "Windows, names, demands compared with the code exactly on dyadic ports and with tolerance (tie guard) on G1.",
+      "0 < size, rate != 0, 0 <= init <= cap, size <= cap, fresh node names (hypotheses stated in the theorems).")
+claim("C12", "DESIGN.md §5 C12",
+      "Lean 4 invariant proof over every successful sequence of MIRP helper calls (arc kinds, alternation, timing filter), load alternation along every depot path by induction, exit arcs, arc data of travel arcs + full-graph correspondence and kind/arc-set oracle",
+      "Proved for every successful build (any order/number of helper calls, positive cargo size, distinct port names): depot arcs lead only to loading nodes, non-depot arcs alternate loading/discharging, every stored arc passes the timing filter; "
+      "along every depot path the load is size after a loading node and 0 after a discharging node; every regular node gets an exit arc and arcs are never removed; travel arcs carry distance/speed and distance*unit+destination fee. "
+      "The complete arc dictionary and node list are compared with the code; the exactly-specified arc set is re-derived independently (also on G1 and random-generator instances).",
+      "Exactness of the whole arc set for permuted helper orders rests on the oracle (the theorem gives the travel-arc data and the invariants).")
+claim("C18", "DESIGN.md §5 C18",
+      "Lean 4 theorems (sorted-grid continue/break scan = window filter; enumerated tuples = admissible tuples; Nodup; index<->tuple lookups mutually inverse; none for inadmissible tuples and indices >= n; same for the sequence fixing rules) + correspondence on whole variable lists and lookup boxes",
+      "Proved: add_time_points sorts (any input order); on a sorted grid the enumeration yields exactly the admissible (i,s,j,t); no duplicates for duplicate-free grids; both lookups are mutual inverses; inadmissible tuples and indices >= n map to nothing; "
+      "sequence-based: the free variables are exactly the in-range (v,p,n) not fixed by the start/end/adjacency rules. Variable lists and lookups compared with the code on boxes of tuples incl. off-grid and out-of-window ones.",
+      "Grid without duplicate values; sequence lookups inside the declared ranges.")
+
 for _p in ["C02", "C03", "C04", "C05", "C06", "C07", "C08", "C09", "C10", "C11", "C12", "C13", "C14", "C15", "C16", "C17", "C18", "C19", "C20"]:
     if _p not in CLAIMED:
         NOT_YET[_p] = "check under construction in this round (see DESIGN.md §10 order of construction); not claimed until its command exists"
